@@ -42,6 +42,8 @@ static void apply_settings(int argc, char** argv) {
   G.cpu_seam = G.variant.rfind("simd", 0) == 0 || G.variant == "kavx2" || G.variant == "kplain32" || arg(argc, argv, "--cpu-seam", "") == "1";
   if (arg(argc, argv, "--cpu-seam", "") == "0")
     G.cpu_seam = false;
+  if (!arg(argc, argv, "--prop", "").empty())
+    G.own_prefix = arg(argc, argv, "--prop", "") + ".";
   std::string en = arg(argc, argv, "--enabled", "");
   if (!en.empty()) {
     G.enabled_mask = 0;
@@ -216,6 +218,8 @@ static int cmd_run(int argc, char** argv) {
 }
 
 static void settings_from_plan(const Plan& p) {
+  if (!p.prop.empty())
+    G.own_prefix = p.prop + ".";
   if (p.meta.count("node") && G.node_override.empty())
     G.node_override = p.meta.at("node");
   if (p.meta.count("enabled")) {
